@@ -328,6 +328,48 @@ def main(argv: List[str]) -> int:
     else:
         run.crash("trichotomy arithmetic lemma not discharged")
 
+    # ---- native probe of what a stateless reading cannot see: the instances are mutable, so the operators and reprs must follow the CURRENT
+    #      field values (a key cached at the first comparison goes stale).  compare -> mutate in place -> compare again, on a grid.
+    import operator as _op
+
+    P, R, Lc = live.types.Position, live.types.Range, live.types.Location
+    ops = {"==": _op.eq, "!=": _op.ne, "<": _op.lt, "<=": _op.le, ">": _op.gt, ">=": _op.ge}
+    mut_n = 0
+    mut_bad = None
+    pts = [(0, 0), (0, 1), (1, 0), (5, UMAX), (UMAX, 0)]
+    for a0 in pts:
+        for b0 in pts:
+            for a1 in pts:
+                a, b = P(line=a0[0], character=a0[1]), P(line=b0[0], character=b0[1])
+                for nm, f in ops.items():
+                    f(a, b)
+                    f(b, a)  # first use (what a cache would remember)
+                repr(a)
+                hash_ok = True
+                a.line, a.character = a1  # in-place edit
+                for nm, f in ops.items():
+                    mut_n += 1
+                    want = f(a1, b0)
+                    got = f(a, b)
+                    if got is not want and mut_bad is None:
+                        mut_bad = (f"Position{a0} {nm} Position{b0} evaluated, then the left operand edited in place to {a1}: `{nm}` gives {got}, the pairs say {want}", {"first": [a0, b0], "edited_to": a1, "operator": nm})
+                if repr(a) != f"{a1[0]}:{a1[1]}" and mut_bad is None:
+                    mut_bad = (f"repr of a Position edited in place from {a0} to {a1} is {repr(a)!r}", {"first": a0, "edited_to": a1})
+    # Range / Location: equality follows an edited component
+    for a0 in pts[:3]:
+        for a1 in pts[:3]:
+            r1 = R(start=P(line=a0[0], character=a0[1]), end=P(line=9, character=9))
+            r2 = R(start=P(line=a1[0], character=a1[1]), end=P(line=9, character=9))
+            l1, l2 = Lc(uri="file:///a", range=r1), Lc(uri="file:///a", range=R(start=P(line=a1[0], character=a1[1]), end=P(line=9, character=9)))
+            (r1 == r2, l1 == l2, repr(r1), repr(l1))
+            r1.start.line, r1.start.character = a1
+            mut_n += 2
+            if not (r1 == r2) or not (l1 == l2) or repr(r1) != repr(r2):
+                if mut_bad is None:
+                    mut_bad = (f"a Range whose start was edited in place from {a0} to {a1} does not compare / print like a Range built with {a1}", {"first": a0, "edited_to": a1})
+    if mut_bad is not None:
+        run.violation("C20:mutation-history", "comparison does not follow the current field values after an in-place edit — " + mut_bad[0], {**mut_bad[1], "replay": "build the objects, compare once, assign the fields, compare again"}, True)
+
     if n_lemmas == 0:
         run.crash("no lemma generated")
     run.assume(
@@ -348,6 +390,7 @@ def main(argv: List[str]) -> int:
             "lemmas": n_lemmas,
             "methods_verified": info["methods"],
             "bounded_native_cases": bounded,
+            "mutation_history_cases": mut_n,
             "encoder_vs_cpython_inputs": diff_n,
             "samples": stats.samples[:8],
             "notes": run.notes,
